@@ -480,6 +480,14 @@ func (c *Chain) meta(h int) wtxmgr.BlockMeta {
 }
 
 // NotifyConnect delivers block h of the best chain in the configured style.
+// DisconnectedAt builds the BlockDisconnected notification for the best-chain
+// block at height h (the chain itself is not changed).
+func (c *Chain) DisconnectedAt(h int) chain.BlockDisconnected {
+	c.mu.Lock()
+	defer c.mu.Unlock()
+	return chain.BlockDisconnected(c.meta(h))
+}
+
 func (c *Chain) NotifyConnect(h int) {
 	c.mu.Lock()
 	b := c.best[h]
